@@ -150,6 +150,15 @@ CHECKS["C19"] = dict(
     note="trusted: renderer (words from config.json), date_printed / duration_parts projections (language tables), TLC; only concepts a language has words for are rendered in it",
     ref="7 C19")
 
+CHECKS["C17"] = dict(
+    technique="TLA+ spec (UiSpans.tla) model-checked by TLC; recorded (line length, written lexeme spans, reported highlight tokens) traces of the real library validated by TLC (Trace.tla 'ui' events)",
+    text="TLC model-checks that the well-formedness predicate is exactly 'increasing chain of non-empty disjoint spans inside the line' and enumerates every sequence of 1..3 (thorough 5) "
+         "lexeme classes out of 12 (numbers, operators, parentheses, ASCII / 2-byte / 3-byte words, a 4-byte symbol, words whose case mapping changes length, assignment, zone and month names) "
+         "with and without a comment; the driver renders each with concrete strings in en and tr, knows the character span of every number, operator and comment it wrote, and TLC validates "
+         "every recorded line: spans inside the line, ordered, disjoint, and each written lexeme reported with its own kind and exactly its characters. Random longer lines likewise.",
+    note="trusted: the composer's span bookkeeping (lexemes separated by blanks), Debug names of UiTokenType, TLC; only number / operator / comment lexemes are claimed",
+    ref="7 C17")
+
 NOT_YET = {
 }
 
